@@ -159,7 +159,7 @@ func VerifC03_Raw() {
 func VerifC03_Constructed() {
 	mode := vInt("mode", 0, 2)
 	um := vInt("um", 1, 2)
-	shape := vInt("shape", 0, 13)
+	shape := vInt("shape", 0, 14)
 	p := positional("p", "c", "sub")
 	q := positional("q", "c", "sub")
 	vAssume(p != q)
@@ -210,6 +210,10 @@ func VerifC03_Constructed() {
 	case 12:
 		vAssume(mode == 1)
 		args, want = []string{"-sy=1", p, q}, []string{"-sy=1", q}
+	case 14:
+		// three letters: unknown, a known one that takes the next token, unknown
+		vAssume(mode == 1)
+		args, want = []string{p, "-ysz", q, p}, []string{p, "-ysz", p}
 	case 13:
 		// the same with require-order: the bundle and everything behind the value
 		vAssume(mode == 1)
